@@ -133,7 +133,7 @@ def rule_pubfields(text, ctx, where):
     fields.append((seg_start, e))
     for (a, z) in fields:
         seg = text[a:z]
-        mt = re.match(r"(\s*)(pub(\s*\([^)]*\))?\s+)?([A-Za-z_]\w*\s*:)", seg)
+        mt = re.match(r"((?:\s|//[^\n]*\n)*)(pub(\s*\([^)]*\))?\s+)?([A-Za-z_]\w*\s*:)", seg)
         if mt and not mt.group(2):
             seg = mt.group(1) + "pub " + seg[mt.end(1):]
             n += 1
@@ -236,6 +236,32 @@ def rule_iter_any(text, ctx, where):
         rep = (f"({{ let mut {i}: usize = 0; let mut {r} = false; "
                f"while {i} < {recv}.len() {{ let {pat} = &{recv}[{i}]; if {body} {{ {r} = true; break; }} {i} += 1; }} {r} }})")
         text = text[:s0] + rep + text[e + 1:]
+        n += 1
+    return text, n
+
+
+def rule_iter_map_collect(text, ctx, where):
+    """`X.iter().map(|t| E).collect()` -> a block that pushes E for every element, in order, into a fresh Vec
+    (std semantics of map+collect into Vec assumed)"""
+    n = 0
+    while True:
+        m = mask(text)
+        mt = re.search(r"\.iter\(\)\s*\.map\(", m)
+        if not mt:
+            break
+        s0 = chain_start(m, mt.start())
+        recv = text[s0:mt.start()].strip()
+        b = mt.end() - 1
+        e = match_delim(m, b)
+        pat, body = _split_closure(text[b + 1:e])
+        m2 = re.match(r"\s*\.collect(::<[^>]*>)?\(\)", m[e + 1:])
+        if not m2:
+            raise AnchorLost(f"{where}: iter().map(..) not followed by .collect()")
+        end = e + 1 + m2.end()
+        i, o = f"__mi{n}", f"__mo{n}"
+        rep = (f"{{ let mut {o} = Vec::new(); let mut {i}: usize = 0; while {i} < {recv}.len() {{ let {pat} = &{recv}[{i}]; "
+               f"let __e = {body}; {o}.push(__e); {i} += 1; }} {o} }}")
+        text = text[:s0] + rep + text[end:]
         n += 1
     return text, n
 
@@ -568,7 +594,7 @@ def rule_unreachable_partial(text, ctx, where):
     return text, n
 
 
-RULES = {"ok_or_else_q": rule_ok_or_else_q, "for_zip": rule_for_zip, "msg_to_string": rule_msg_to_string, "for_consume": rule_for_consume, "for_entries": rule_for_entries, "opt_map": rule_opt_map, "opt_or_else": rule_opt_or_else, "closure_inline": rule_closure_inline, "unreachable_partial": rule_unreachable_partial, "assert_partial": rule_assert_partial, "for_index": rule_for_index, "map_err_q": rule_map_err_q, "iter_any": rule_iter_any, "opt_map_or": rule_opt_map_or, "mutself": rule_mutself, "fmtmsg": rule_fmtmsg, "pubfields": rule_pubfields, "T": rule_T, "attrs": rule_attrs, "cell": rule_cell}
+RULES = {"iter_map_collect": rule_iter_map_collect, "ok_or_else_q": rule_ok_or_else_q, "for_zip": rule_for_zip, "msg_to_string": rule_msg_to_string, "for_consume": rule_for_consume, "for_entries": rule_for_entries, "opt_map": rule_opt_map, "opt_or_else": rule_opt_or_else, "closure_inline": rule_closure_inline, "unreachable_partial": rule_unreachable_partial, "assert_partial": rule_assert_partial, "for_index": rule_for_index, "map_err_q": rule_map_err_q, "iter_any": rule_iter_any, "opt_map_or": rule_opt_map_or, "mutself": rule_mutself, "fmtmsg": rule_fmtmsg, "pubfields": rule_pubfields, "T": rule_T, "attrs": rule_attrs, "cell": rule_cell}
 
 
 def apply_rules(text, rules, ctx, counts, where):
